@@ -55,7 +55,7 @@ var specSignTreeHead = Callee{pkgCtlog, "", "signTreeHead"}
 // stagingUploads: Backend.Upload sites whose key is a stagingPath(...) result.
 func stagingUploads(f *Func) []Site {
 	var out []Site
-	for _, s := range f.Calls(specUpload) {
+	for _, s := range f.CallsW(specUpload) {
 		if k := argByName(f.Info(), s.Call, "key"); k != nil {
 			if _, ok := f.IsCallResult(k, -1, specStagingPath); ok {
 				out = append(out, s)
@@ -71,10 +71,10 @@ func c03a(c *Ctx) {
 		info := f.Info()
 		g := f.Graph()
 		stag := stagingUploads(f)
-		repl := f.Calls(specLockRepl)
-		apply := f.Calls(specApply)
+		repl := f.CallsW(specLockRepl)
+		apply := f.CallsW(specApply)
 		pub := checkpointUploads(f)
-		disc := f.Calls(specDiscard)
+		disc := f.CallsW(specDiscard)
 		if len(stag) == 0 || len(repl) == 0 || len(apply) == 0 || len(pub) == 0 || len(disc) == 0 {
 			c.Unk(f.Name, fmt.Sprintf("round steps not all found: staging=%d replace=%d apply=%d publish=%d discard=%d", len(stag), len(repl), len(apply), len(pub), len(disc)))
 			continue
@@ -144,7 +144,7 @@ func c03b(c *Ctx) {
 			}
 			marshal = m
 		}
-		for _, s := range f.Calls(specApply) {
+		for _, s := range f.CallsW(specApply) {
 			a := argByName(info, s.Call, "stagedUploads")
 			m, ok := f.IsCallResult(a, 0, specMarshalStaged)
 			if !ok || (marshal != nil && m != marshal) {
@@ -181,7 +181,7 @@ func c03c(c *Ctx) {
 			} else {
 				c.Bad(inst, s.Pos(), "the staging key is not derived from the tree head that is signed: "+exprString(sp.Args[0]))
 			}
-			for _, d := range f.Calls(specDiscard) {
+			for _, d := range f.CallsW(specDiscard) {
 				dk := argByName(info, d.Call, "key")
 				if f.SameValue(dk, k) {
 					c.OK(f.Name+" discard key", "Discard uses the staging key of this round", []string{d.Pos()})
@@ -303,7 +303,7 @@ func c03d(c *Ctx) {
 	for _, step := range []struct {
 		name  string
 		sites []Site
-	}{{"fetch staging", fetches}, {"apply staging", f.Calls(specApply)}} {
+	}{{"fetch staging", fetches}, {"apply staging", f.CallsW(specApply)}} {
 		inst := f.Name + " published<lock: " + step.name
 		if len(step.sites) == 0 {
 			c.Bad(inst, f.Pos(f.Body), "LoadLog has no "+step.name+" step")
@@ -358,7 +358,7 @@ func c03d(c *Ctx) {
 		}
 		inst := f.Name + " published==lock: no staging needed"
 		cutEq := Cut{Edges: g.FeasibleCut(envEq)}
-		steps := append(append([]Site{}, fetches...), f.Calls(specApply)...)
+		steps := append(append([]Site{}, fetches...), f.CallsW(specApply)...)
 		if pt, _ := g.ReachableFromEntry(cutEq, atAnySite(steps)); pt != nil {
 			c.Bad(inst, f.Pos(pt.B.Nodes[pt.I]), "after a clean shutdown (published checkpoint == lock checkpoint) LoadLog still wants the staging bundle, which was discarded: the log could not be restarted")
 		} else if pt, _ := g.ReachableFromEntry(cutEq, atAnySite(okRets)); pt == nil {
@@ -368,7 +368,7 @@ func c03d(c *Ctx) {
 		}
 	}
 	// the applied bundle is the fetched one
-	for _, s := range f.Calls(specApply) {
+	for _, s := range f.CallsW(specApply) {
 		a := argByName(info, s.Call, "stagedUploads")
 		if _, ok := f.IsCallResult(a, 0, Callee{pkgCtlog, "", "fetchAndDecompress"}); !ok {
 			c.Bad(f.Name+" applied bundle", s.Pos(), "the bundle applied during recovery is not the fetched staging bundle")
@@ -470,7 +470,7 @@ func c03f(c *Ctx) {
 	for _, f := range sequencers(c.P) {
 		c.touch(f)
 		g := f.Graph()
-		for _, s := range f.Calls(specApply) {
+		for _, s := range f.CallsW(specApply) {
 			inst := f.Name + " apply error edge"
 			_, nonNil, _, ok := OutcomeEdges(s)
 			if !ok || len(nonNil) == 0 {
@@ -512,7 +512,7 @@ func errDiscipline(s Site) (ok bool, how string) {
 	switch n := s.Node.(type) {
 	case *ast.ReturnStmt:
 		for _, r := range n.Results {
-			if ast.Unparen(r) == s.Call {
+			if ast.Unparen(r) == s.real() {
 				return true, "returned directly"
 			}
 		}
